@@ -10,9 +10,10 @@ from pathlib import Path
 from typing import Any, Dict, List, Optional
 
 VERIF = Path(__file__).resolve().parent.parent
-EVIDENCE_DIR = VERIF / "evidence"
-REPLAY_DIR = VERIF / "out" / "replay"
-KNOWN_FILE = VERIF / "known_findings.json"
+EVIDENCE_DIR = Path(os.environ.get("RV_VERIF_EVIDENCE_DIR") or VERIF / "evidence")
+REPLAY_DIR = (Path(os.environ["RV_VERIF_EVIDENCE_DIR"]) / "replay") if os.environ.get("RV_VERIF_EVIDENCE_DIR") \
+    else VERIF / "out" / "replay"
+KNOWN_FILE = Path(os.environ.get("RV_VERIF_KNOWN") or VERIF / "known_findings.json")
 
 OK, VIOLATION, INCONCLUSIVE, ERROR, INFO = "ok", "violation", "inconclusive", "analysis-error", "info"
 
